@@ -54,6 +54,11 @@ def body_kind(mt: str) -> str | None:
     return None
 
 
+def _requires(sec: Any) -> bool:
+    """a security list demands credentials when it is non-empty and offers no empty requirement object ({} = anonymous access allowed)"""
+    return isinstance(sec, list) and bool(sec) and all(isinstance(x, dict) and bool(x) for x in sec)
+
+
 def operations(doc: dict) -> list[dict]:
     ops = []
     for path, item in (doc.get("paths") or {}).items():
@@ -108,7 +113,10 @@ def operations(doc: dict) -> list[dict]:
                 opid = f"{m}_{clean}"  # the documented naming rule for operations without operationId
             ops.append({
                 "path": path, "method": m, "operationId": opid, "tags": op.get("tags") or [],
-                "params": params, "bodies": bodies, "responses": responses, "security": bool(op.get("security")),
+                "params": params, "bodies": bodies, "responses": responses,
+                # an operation without its own `security` inherits the document-level list; `security: []` opts out
+                "security": _requires(op.get("security")) if "security" in op else _requires(doc.get("security")),
+                "security_inherited": "security" not in op and _requires(doc.get("security")),
             })
     return ops
 
